@@ -59,7 +59,7 @@ func roleOf(stack string) string {
 		return "output"
 	case strings.Contains(stack, "opshell.(*Shell).insert"):
 		return "insert"
-	case strings.Contains(stack, "VerifState"):
+	case strings.Contains(stack, "VerifState"), strings.Contains(stack, "VerifMuted"):
 		return ""
 	}
 	return "aux"
@@ -258,7 +258,7 @@ func c19LockRun(capPath, scenario string, prefix []int) (*lockRun, error) {
 	/* Mute semantics whatever the order: output that was suppressed starts
 	the calm anew, so the shell cannot be un-muted at that same instant. */
 	if strings.Contains(scenario, "T") && strings.Contains(scenario, "P") && !strings.Contains(out, "<plain>") {
-		if silenced, _ := ts.sh.VerifState(); !silenced || strings.Contains(out, "Unmuting") {
+		if silenced, known := ts.sh.VerifMuted(); (known && !silenced) || strings.Contains(out, "Unmuting") {
 			res.Problem = fmt.Sprintf("shell output arriving exactly when the pause interval ends was suppressed, and yet muting ended at that same moment (no calm at all): terminal shows %q, muted flag %v", out, silenced)
 		}
 	}
@@ -305,11 +305,20 @@ func c19LocksWorker(args []string) int {
 		Schedule  []string `json:"schedule,omitempty"`
 		Choices   []int    `json:"choices,omitempty"`
 		Err       string   `json:"err,omitempty"`
+		/* NotApplicable: why the scenario could not be set up on this Shell. */
+		NotApplicable string `json:"not_applicable,omitempty"`
 	}
 	var res result
 	var explore func(prefix []int) bool
 	explore = func(prefix []int) bool {
 		x, err := c19LockRun(capPath, scenario, prefix)
+		if nil != err && 0 == len(prefix) && strings.Contains(err.Error(), "never reached") {
+			/* This Shell does not do that step in a goroutine of its
+			own taking the write lock (another design): the scenario has
+			nothing to interleave. */
+			res.NotApplicable = err.Error()
+			return false
+		}
 		if nil != err {
 			res.Err = err.Error()
 			return false
